@@ -142,7 +142,7 @@ theorem trsoF_sound_engine (sep : SepTest) (C : Ctx → Prop) {c₀ : Ctx} (h₀
         subst hqq
         have hG'' : G'' = G.subgraph (nsort anc) := by
           have h1 := hinv''.look
-          rw [(line2_shape' hq.look hanc hq').2.2.2.2.2] at h1
+          rw [(line2_shape' hq.look hanc hq').2.2.2.2.2.1] at h1
           exact (Except.ok.inj h1).symm
         subst hG''
         have hI' : Inv C q'' (G.subgraph (nsort anc)) := fun c hc => (sound_line2 hq (hI c hc) hanc hne' hq').1
@@ -193,8 +193,12 @@ theorem trsoF_sound_engine (sep : SepTest) (C : Ctx → Prop) {c₀ : Ctx} (h₀
                   unfold line4 at hs
                   obtain ⟨c, _, rfl⟩ := List.mem_map.1 hs
                   rfl
-                exact ih s G hinv' (fun c hc => (hI c hc).congr hexpr hdom) (hK q s hKq hac hdom (Or.inl hsu))
-                  t hst ctx hctx
+                have hgr : s.graphs = q.graphs := by
+                  unfold line4 at hs
+                  obtain ⟨c, _, rfl⟩ := List.mem_map.1 hs
+                  rfl
+                exact ih s G hinv' (fun c hc => (hI c hc).congr hexpr hdom hgr hac hsu)
+                  (hK q s hKq hac hdom (Or.inl hsu)) t hst ctx hctx
               exact sound_line4 hq h hT hterms hs he'
           · -- lines 6-11
             rename_i hlen
@@ -308,7 +312,14 @@ theorem trsoF_sound_engine (sep : SepTest) (C : Ctx → Prop) {c₀ : Ctx} (h₀
                         intro cx hcx
                         have hx := hI cx hcx
                         obtain ⟨gx, nx, wx, dx⟩ := sound_line10_core hq hx hc'd hc'T hq'
-                        refine ⟨hx.rsub.subgraph hc'n, gx, nx, ?_, ?_, ?_, Or.inr ⟨hnj, wx⟩⟩
+                        refine ⟨hx.rsub.subgraph hc'n, gx, nx, ?_, ?_, ?_, Or.inr ⟨hnj, wx⟩, ?_⟩
+                        rotate_left 3
+                        · -- after line 10 the target-phase clause is void
+                          intro ha' hs'
+                          exfalso
+                          rcases hs with ⟨_, hne⟩ | ⟨hnil, _⟩
+                          · exact hne (hact ▸ ha')
+                          · exact hs' (hsurr.trans hnil)
                         · intro σ
                           rw [dx σ]
                           exact congrFun (cx.M.Q_congr_set (nsort_nodup' c') hV'
